@@ -1447,37 +1447,16 @@ impl<'de, 'e> de::Deserializer<'de> for YamlDeserializer<'de, 'e> {
     /// If borrowing is not possible, this method falls back to `Visitor::visit_string`.
     /// When the target type requires `&str`, that fallback produces a helpful error suggesting
     /// `String` or `Cow<str>`, with a [`TransformReason`] describing why borrowing was impossible.
-    fn deserialize_str<V: Visitor<'de>>(mut self, visitor: V) -> Result<V::Value, Self::Error> {
+    fn deserialize_str<V: Visitor<'de>>(self, visitor: V) -> Result<V::Value, Self::Error> {
         let location = match self.ev.peek()? {
-            Some(Ev::Scalar {
-                location,
-                tag,
-                style,
-                value,
-                ..
-            }) => {
-                // Check for null - not valid for string deserialization
-                if tag == &SfTag::Null || scalar_is_nullish(value, style) {
-                    let loc = *location;
-                    let _ = self.ev.next()?;
-                    return Err(Error::NullIntoString { location: loc });
-                }
-                *location
-            }
+            Some(Ev::Scalar { location, .. }) => *location,
             Some(other) => {
                 return Err(Error::unexpected("string scalar").with_location(other.location()));
             }
             None => return Err(Error::eof().with_location(self.ev.last_location())),
         };
 
-        // Consume scalar and rely on the parser's own borrowing promise:
-        // `Cow::Borrowed` indicates the scalar exists verbatim in the backing input.
-        let (cow, _tag, _loc) = self.take_scalar_cow_with_location()?;
-        if let Cow::Borrowed(b) = cow {
-            return visitor.visit_borrowed_str(b);
-        }
-
-        // Fall back to owned string. If the caller required a borrowed string (`&str`),
+        // If the caller requires a borrowed string (`&str`) and only an owned one can be offered,
         // convert the generic error into our richer message.
         let cannot_borrow_reason = if self.ev.input_for_borrowing().is_none() {
             TransformReason::InputNotBorrowable
@@ -1485,8 +1464,11 @@ impl<'de, 'e> de::Deserializer<'de> for YamlDeserializer<'de, 'e> {
             TransformReason::ParserReturnedOwned
         };
 
-        let res: Result<V::Value, Self::Error> = visitor.visit_string(cow.into_owned());
-        match res {
+        // Null, tag and `!!binary` handling must be exactly that of an owned string: the visitor
+        // gets the borrowed slice (`Cow::Borrowed`: the scalar exists verbatim in the backing
+        // input) only when the tag leaves the text as it is; otherwise it gets the owned result,
+        // or the same error `String` would get.
+        match self.deserialize_string(visitor) {
             Ok(v) => Ok(v),
             Err(err) => {
                 let msg = err.to_string();
